@@ -79,4 +79,14 @@ def hfTrianglesAt (nrows ncols : K) (i j : K) (y00 y10 y01 y11 : K) (scale : V3 
 /-- one vertex of `push_circle(radius, _, _, y)` at angle with cosine `c` and sine `s` -/
 def circlePoint (radius y c s : K) : V3 K := ⟨c * radius, y, s * radius⟩
 
+/-- loop of `push_circle`: `k` more vertices, current angle `θ` (`curr_theta += dtheta` after each push);
+`cs θ = (cos θ, sin θ)` is the trigonometric primitive (libm at `Float`, any function in the theorems) -/
+def pushCircleAux (cs : K → K × K) (radius dtheta y : K) : Nat → K → List (V3 K)
+  | 0, _ => []
+  | k + 1, θ => circlePoint radius y (cs θ).1 (cs θ).2 :: pushCircleAux cs radius dtheta y k (θ + dtheta)
+
+/-- `push_circle(radius, nsubdiv, dtheta, y)`: what is pushed to `out` -/
+def pushCircle (cs : K → K × K) (radius : K) (nsubdiv : Nat) (dtheta y : K) : List (V3 K) :=
+  pushCircleAux cs radius dtheta y nsubdiv 0
+
 end Model
